@@ -918,7 +918,7 @@ def isenumtype(obj: type) -> compat.TypeIs[type[enum.Enum]]:
         >>> isenumtype(FooNum)
         True
     """
-    return _safe_issubclass(obj, enum.Enum)
+    return _safe_issubclass(_resolve_wrappers(obj), enum.Enum)
 
 
 @compat.cache
@@ -1216,7 +1216,7 @@ def istexttype(t: type[tp.Any]) -> compat.TypeIs[type[str | bytes | bytearray]]:
         >>> istexttype(MyStr)
         True
     """
-    return _safe_issubclass(t, (str, bytes, bytearray, memoryview))
+    return _safe_issubclass(_resolve_wrappers(t), (str, bytes, bytearray, memoryview))
 
 
 @compat.cache
@@ -1229,7 +1229,7 @@ def isstringtype(t: type[tp.Any]) -> compat.TypeIs[type[str | bytes | bytearray]
         >>> istexttype(MyStr)
         True
     """
-    return _safe_issubclass(t, str)
+    return _safe_issubclass(_resolve_wrappers(t), str)
 
 
 @compat.cache
@@ -1242,7 +1242,7 @@ def isbytestype(t: type[tp.Any]) -> compat.TypeIs[type[str | bytes | bytearray]]
         >>> istexttype(MyStr)
         True
     """
-    return _safe_issubclass(t, (bytes, bytearray, memoryview))
+    return _safe_issubclass(_resolve_wrappers(t), (bytes, bytearray, memoryview))
 
 
 @compat.cache
@@ -1259,7 +1259,7 @@ def isnumbertype(t: type[tp.Any]) -> compat.TypeIs[type[numbers.Number]]:
         >>> isnumbertype(decimal.Decimal)
         True
     """
-    return _safe_issubclass(t, numbers.Number)
+    return _safe_issubclass(_resolve_wrappers(t), numbers.Number)
 
 
 @compat.cache
@@ -1276,7 +1276,7 @@ def isintegertype(t: type[tp.Any]) -> compat.TypeIs[type[int]]:
         >>> isnumbertype(decimal.Decimal)
         False
     """
-    return _safe_issubclass(t, int)
+    return _safe_issubclass(_resolve_wrappers(t), int)
 
 
 @compat.cache
@@ -1293,7 +1293,7 @@ def isfloattype(t: type[tp.Any]) -> compat.TypeIs[type[float]]:
         >>> isnumbertype(decimal.Decimal)
         False
     """
-    return _safe_issubclass(t, float)
+    return _safe_issubclass(_resolve_wrappers(t), float)
 
 
 @compat.cache
@@ -1455,7 +1455,7 @@ def ispatterntype(t: tp.Any) -> compat.TypeIs[re.Pattern]:
         >>> ispatterntype(r"^[a-z]+$")
         False
     """
-    return _safe_issubclass(t, re.Pattern)
+    return _safe_issubclass(_resolve_wrappers(t), re.Pattern)
 
 
 @compat.cache
@@ -1469,7 +1469,7 @@ def ispathtype(t: tp.Any) -> compat.TypeIs[pathlib.Path]:
         >>> ispathtype(".")
         False
     """
-    return _safe_issubclass(t, pathlib.PurePath)
+    return _safe_issubclass(_resolve_wrappers(t), pathlib.PurePath)
 
 
 @compat.cache
@@ -1510,6 +1510,14 @@ def unwrap(t: tp.Any) -> tp.Any:
             continue
 
         return t
+    return t
+
+
+def _resolve_wrappers(t: tp.Any) -> tp.Any:
+    """Resolve NewType supertypes and a type alias value, as `origin()` does."""
+    t = resolve_supertype(t)
+    if istypealiastype(t):
+        t = t.__value__
     return t
 
 
